@@ -106,4 +106,12 @@ theorem Step.ok {σ α} {R : Rel σ} {m : M σ α} (h : Step R m) {s s' : σ} {a
     R.r s s' := by
   have := h.run s; rw [e] at this; exact this
 
+theorem M.bind_ok {σ α β} {m : M σ α} {f : α → M σ β} {s s' : σ} {b : β}
+    (h : (m >>= f) s = .ok b s') : ∃ a s1, m s = .ok a s1 ∧ f a s1 = .ok b s' := by
+  rw [M.bind_run] at h
+  cases hm : m s with
+  | ok a s1 => rw [hm] at h; exact ⟨a, s1, rfl, h⟩
+  | fail e s1 => rw [hm] at h; cases h
+
+
 end Pegnet
